@@ -9,7 +9,8 @@ RULE = ("explicit-state BFS over lifecycle histories of Hmac<D>, Poly1305, legac
         "legacy BLAKE2 the inherent reset / reset_with_key(k); model = lifecycle automaton (key, bytes since reset, finalised): first result must be the "
         "MAC/digest, a repeated result must be the same bytes or a panic, input after result must panic, reset gives a fresh object with the same key; "
         "tree mode = every letter sequence to the depth bound with up to 2 objects, graph mode = merge on (automaton state, observed result-of-clone) until "
-        "the frontier is empty within 4 blocks and 2 resets; legacy digests are compared with the one-shot reference in every state")
+        "the frontier is empty within 4 blocks and 2 resets; legacy digests are compared with the one-shot reference in every state"
+        " Also: HMAC keys of exactly one block; the letter 'result into a buffer one byte short' (must refuse; afterwards a further result must refuse again or be right, reset revives); Digest::input_str for every legacy digest; component shards: C05's Poly1305 limb-steering / corner-state / crafted inputs; tree shards again on the checked-arithmetic build, graph shards of SHA-256 / BLAKE2 objects on the +avx and native builds.")
 ASSUMPTIONS = ["reference hashes, RFC 2104 HMAC, big-integer Poly1305 as in C01/C05/C08", "nothing is required of an object after a panic unwound through it (the history of that object ends)",
                "a repeated result may either repeat the bytes or panic; any other value is a violation"]
 
